@@ -83,7 +83,7 @@ func (s *c17Sys) Close() {
 
 // c17Ops is the shared menu plus the calls only C17 compares.
 func c17Ops(u *absUni) []repoOp {
-	return append(repoOps(u),
+	return append(repoOps(u, "state"),
 		repoOp{"PackRefs", func(st storage.Storer, m *absRepo) (string, string) {
 			if err := st.PackRefs(); err != nil {
 				return "ok", "error(" + normErr(err) + ")"
@@ -105,7 +105,7 @@ func c17Ops(u *absUni) []repoOp {
 }
 
 func runC17(c *fw.Ctx) {
-	depth := c.Pick(3, 4)
+	depth := absDevDepth(c, c.Pick(3, 4))
 	c.Bound("depth", depth)
 	var names []string
 	for _, o := range c17Ops(absUniverse("sha1")) {
@@ -176,7 +176,7 @@ func runC17(c *fw.Ctx) {
 		bn = append(bn, fmt.Sprintf("%s depth=%d", b.name, b.depth))
 	}
 	c.Bound("backends", bn)
-	c.SetRule("all histories up to the backend's depth over the shared menu {SetRef/SetSymRef (retarget, detach HEAD, hash->symbolic, nested name), CheckAndSet (current/stale/absent/old=nil/symbolic old), RemoveRef, SetObject (new, already loose, already packed, commit), WritePack via packfile.UpdateObjectStorage (blobs+tag), SetIndex (entry/empty), SetShallow (value/empty), SetConfig, AppendReflog (two names), DeleteReflog} plus PackRefs and Module(m).SetRef on every backend (memory; filesystem on mcfs under option combinations; sha1 and sha256), each preloaded through the same calls with hash/symbolic refs, loose objects (one empty), a pack (blob+tree), an index, a shallow list, a config and a reflog; after every history every point read, listing, object has/size/untyped/typed/wrong-typed/repeated read with type, size and content, listing per object type with multiplicity, index entries, shallow, config, reflogs and the module reference must equal the abstract repository model including the error kinds for missing data (ErrReferenceNotFound / ErrObjectNotFound), both through the instance that ran the history and (filesystem) through a freshly opened default-option instance over the same files; since every backend is compared with the same model, all backends agree with each other; every history replayed on fresh instances; distinct = distinct model states x backends")
+	c.SetRule("all histories up to the backend's depth over the shared menu {ReadAll (a full mid-history read compared with the model, so that later writes meet warm caches and lists), SetRef/SetSymRef (retarget, detach HEAD, hash->symbolic, nested name), CheckAndSet (current/stale/absent/old=nil/symbolic old), RemoveRef, SetObject (new, already loose, already packed, commit), WritePack via packfile.UpdateObjectStorage (blobs+tag), SetIndex (entry/empty), SetShallow (value/empty), SetConfig, AppendReflog (two names), DeleteReflog} plus PackRefs and Module(m).SetRef on every backend (memory; filesystem on mcfs under option combinations; sha1 and sha256), each preloaded through the same calls with hash/symbolic refs, loose objects (one empty), a pack (blob+tree), an index, a shallow list, a config and a reflog; after every history every point read, listing, object has/size/untyped/typed/wrong-typed/repeated read with type, size and content, listing per object type with multiplicity, abbreviated-id expansion (HashesWithPrefix or the scan Repository.ResolveRevision falls back to) for empty/1-byte/3-byte/full prefixes, index entries, shallow, config, reflogs and the module reference must equal the abstract repository model including the error kinds for missing data (ErrReferenceNotFound / ErrObjectNotFound), both through the instance that ran the history and (filesystem) through a freshly opened default-option instance over the same files; since every backend is compared with the same model, all backends agree with each other; every history replayed on fresh instances; distinct = distinct model states x backends")
 	c.Assume("D/F-conflicting reference names excluded (C15 decides those); error kind of a failed CheckAndSet left open; CheckAndSet with a symbolic old value against a symbolic reference with another target left open; iteration order compared as a multiset; CountLooseRefs not compared (memory has no loose/packed distinction); IndexCache option left at its default (C20)")
 	total := histx.Result{}
 	for _, b := range backends {
@@ -197,6 +197,9 @@ func runC17(c *fw.Ctx) {
 				kind := b.name
 				if i := strings.IndexByte(kind, '('); i > 0 {
 					kind = kind[:i]
+				}
+				if where == "result of "+absReadAllOp {
+					return kind + " | " + absDiff(e, g)
 				}
 				if strings.HasPrefix(where, "result of") {
 					opk := where[len("result of "):]
